@@ -113,7 +113,7 @@ def _case(draw):
     if cfg["preset"] in ("commonmark", "zero") and not cfg["linkify"] and d.chance(0.5):
         # the instance is first built from another preset and used, then reconfigured
         late = d.pick(["default", "js-default", "commonmark"])
-    return {"src": src, "cfg": cfg, "route_opts": ro, "late": late}
+    return {"src": src, "cfg": cfg, "route_opts": ro, "late": late, "unknown_pos": d.i(0, 5) if d.chance(0.25) else None}
 
 
 def strategy(tier: str):
@@ -164,6 +164,16 @@ def check(case) -> Res:
         res.cls.append("reconfigured-after-use")
     else:
         md = C.build(cfg)
+        if case.get("unknown_pos") is not None and (cfg["enable"] or cfg["disable"]):
+            # the same switches once more, mixed with a name no ruler knows and ignoreInvalid=True:
+            # unknown names are skipped, the known ones are still switched
+            md = C.build(dict(cfg, enable=[], disable=[]))
+            for kind in ("enable", "disable"):
+                names = list(cfg[kind])
+                if names:
+                    names.insert(case["unknown_pos"] % (len(names) + 1), "verif_no_such_rule")
+                    getattr(md, kind)(names, True)
+            res.cls.append("switches-with-ignored-unknown-name")
     env: dict = {}
     toks = md.parse(src, env)
     kinds = {t.type for t in walk_tokens(toks)}
